@@ -1476,3 +1476,29 @@ benign('benign-c18-links-btreeset', 'C18', 'crates/edp_node/src/process.rs', "  
        more=[('crates/edp_node/src/process.rs', "            links: Arc::new(RwLock::new(HashSet::new())),", "            links: Arc::new(RwLock::new(std::collections::BTreeSet::new())),")])
 benign('benign-c16-creation-allocator-first', 'C16', 'crates/edp_node/src/node.rs', "        self.creation.store(creation, Ordering::SeqCst);\n        self.pid_allocator.set_creation(creation);", "        self.pid_allocator.set_creation(creation);\n        self.creation.store(creation, Ordering::SeqCst);")
 benign('benign-c04-cookie-owned-copy', 'C04', 'crates/edp_client/src/state_machine.rs', "        Self {\n            state: ConnectionState::Disconnected,", "        let cookie = String::from(cookie.as_str());\n        Self {\n            state: ConnectionState::Disconnected,")
+benign('benign-c03-list-tail-matches', 'C03', DEC, "    if tail == OwnedTerm::Nil {\n        Ok((remaining, OwnedTerm::List(elements)))", "    if matches!(tail, OwnedTerm::Nil) {\n        Ok((remaining, OwnedTerm::List(elements)))")
+canary('c03-list-tail-is-list', 'C03', DEC, "    if tail == OwnedTerm::Nil {\n        Ok((remaining, OwnedTerm::List(elements)))", "    if tail.is_list() {\n        Ok((remaining, OwnedTerm::List(elements)))", 'tail-dropped-unless-nil')
+benign('benign-c08-generic-insert-front', 'C08', 'crates/edp_client/src/control.rs', """                message_type,
+                fields,
+            } => {
+                let mut elements = vec![OwnedTerm::Integer(message_type as i64)];
+                elements.extend(fields);
+                OwnedTerm::Tuple(elements)""", """                message_type,
+                mut fields,
+            } => {
+                fields.insert(0, OwnedTerm::Integer(message_type as i64));
+                OwnedTerm::Tuple(fields)""")
+canary('c08-generic-swap', 'C08', 'crates/edp_client/src/control.rs', """                message_type,
+                fields,
+            } => {
+                let mut elements = vec![OwnedTerm::Integer(message_type as i64)];
+                elements.extend(fields);
+                OwnedTerm::Tuple(elements)""", """                message_type,
+                mut fields,
+            } => {
+                fields.push(OwnedTerm::Integer(message_type as i64));
+                let last = fields.len() - 1;
+                fields.swap(0, last);
+                OwnedTerm::Tuple(fields)""", 'Generic:reorders')
+canary('c05-empty-write-skipped', 'C05', 'crates/edp_client/src/transport.rs', "    pub async fn write(&mut self, data: &[u8]) -> Result<()> {\n", "    pub async fn write(&mut self, data: &[u8]) -> Result<()> {\n        if data.is_empty() {\n            return Ok(());\n        }\n", 'success-path-writes-nothing')
+canary('c04-complement-skipped', 'C04', 'crates/edp_client/src/state_machine.rs', "        let high_flags = (flags_u64 >> 32) as u32;\n", "        let high_flags = (flags_u64 >> 32) as u32;\n        if high_flags == 0 {\n            return Ok(Vec::new());\n        }\n", 'success-path-writes-nothing')
